@@ -780,6 +780,9 @@ class CallMixin(object):
                 self.ctx.havoc_field(cls, ff, self.field_type(cls, ff))
 
     def construct(self, modname, clsname, args, kwargs, node):
+        if modname == "problog.logic" and clsname in ("Term", "Constant", "Var", "Not") \
+                and clsname not in self.spec.classes:
+            return self.term_construct(clsname, args, kwargs, node)
         if clsname not in self.spec.classes:
             if extract.exc_is_subclass(clsname, "BaseException") or extract.exc_is_subclass(clsname, "Exception"):
                 return Val(TType(), None, ("excinst", clsname))
